@@ -207,6 +207,8 @@ def lost_echo(fx, tier_="quick"):
                  workers=1, heap="1g", name="clientimpl-twin", allow_violation=True)
     if rt.violated != "Recoverable":
         raise MachineryError("ClientImpl: the twin without persist-on-refusal does not lose Recoverable")
+    from common import tlaps_prove
+    out["model"]["tlaps_proof"] = tlaps_prove("ClientImpl_proofs")      # safety clauses + refinement of ClientSM, any MaxLost
     out["model"]["driver"] = {"distinct": rd.distinct, "checked": ["Recoverable (liveness, WF on the driver)", "DriverProgress", "DiskNotAhead", "Searchable"],
                               "twin_without_persist_on_refusal": "Recoverable violated, as it must be"}
     scen = [["create", "genkey", "encrypt", "upconfig!", "upconfig", "upindex", "search"],
